@@ -491,6 +491,9 @@ func (c *compiler) evalIdentifier(node *ast.Identifier) (interface{}, error) {
 
 func (c *compiler) evalInfixExpression(node *ast.InfixExpression) (interface{}, error) {
 	lres, err := c.evalExpression(node.Left)
+	if _, unknown := err.(*ErrUnknownIdentifier); err != nil && !unknown {
+		return nil, err // only an unknown identifier may be tolerated below
+	}
 	if err != nil &&
 		node.Operator != "==" && node.Operator != "!=" &&
 		node.Operator != "||" && node.Operator != "&&" {
@@ -505,6 +508,9 @@ func (c *compiler) evalInfixExpression(node *ast.InfixExpression) (interface{}, 
 	}
 
 	rres, err := c.evalExpression(node.Right)
+	if _, unknown := err.(*ErrUnknownIdentifier); err != nil && !unknown {
+		return nil, err // only an unknown identifier may be tolerated below
+	}
 	if err != nil &&
 		node.Operator != "==" && node.Operator != "!=" &&
 		node.Operator != "||" && node.Operator != "&&" {
